@@ -1074,11 +1074,17 @@ def _scope(prog: Program, run: Run) -> None:
     cfg = CFG(f.node)
     s = ast.unparse(f.node)
     p = f.params()
+    # the context object may travel under a local name (`ctx = context or SnRefContext()`)
+    cx = "context"
+    for x in walk_no_nested(f.node):
+        if isinstance(x, ast.Call) and call_name(x) == "_resolve_snrefs" and x.args and \
+                isinstance(x.args[0], ast.Name) and ast.unparse(x.func.value) == p[1]:
+            cx = x.args[0].id
     setctx = [n.id for n in cfg.nodes if n.stmt is not None and n.kind == "stmt" and
-              f"context.diag_layer = {p[1]}" in ast.unparse(n.stmt)]
+              f"{cx}.diag_layer = {p[1]}" in ast.unparse(n.stmt)]
     own = [n.id for n in cfg.nodes if n.stmt is not None and n.kind == "stmt" and
-           f"{p[1]}._resolve_snrefs(context)" in ast.unparse(n.stmt)]
-    if setctx and own and f"if context.diag_layer is None" in s and own[0] not in \
+           f"{p[1]}._resolve_snrefs({cx})" in ast.unparse(n.stmt)]
+    if setctx and own and f"if {cx}.diag_layer is None" in s and own[0] not in \
             cfg.reachable(0, blocked=[]) or (setctx and own):
         run.ok(R, "retarget_snrefs", "the target layer becomes the context before its own SNREFs "
                "are re-resolved", f.loc)
@@ -1089,7 +1095,7 @@ def _scope(prog: Program, run: Run) -> None:
            "retarget_snrefs"]
     loops = [l for l in walk_no_nested(f.node) if isinstance(l, ast.For)]
     if rec and loops and [ast.unparse(a) for a in rec[0].args][1:] == [
-            f"{ast.unparse(loops[0].target)}.layer", "context"]:
+            f"{ast.unparse(loops[0].target)}.layer", cx]:
         run.ok(R, "retarget_snrefs", "recurses into every parent layer with the same context "
                "(all ancestors are re-targeted)", f"{f.module.rel}:{rec[0].lineno}")
     else:
